@@ -4,6 +4,7 @@ void run_queue(const char *input);
 void run_regs(const char *input);
 void run_heap(const char *input);
 void run_lexer(const char *input);
+void run_match(const char *input);
 
 void dom_replay(const char *line) {
     char *copy = strdup(line), *arrow;
@@ -14,6 +15,7 @@ void dom_replay(const char *line) {
         case 'R': run_regs(copy); break;
         case 'H': run_heap(copy); break;
         case 'L': run_lexer(copy); break;
+        case 'M': run_match(copy); break;
         default: break;
     }
     free(copy);
